@@ -125,7 +125,7 @@ def run(ctx):
     okp = False
     for rn, facts, t in rets:
         okp = t[0] == "call" and t[1] in ("scipy.linalg.det", "numpy.linalg.det") and t[2][0][0] == "sub" and t[2][0][1][0] == "call" and t[2][0][1][1] in ("numpy.eye", "numpy.identity") \
-            and "('+', (('c', -1), ('call', 'numpy.array', (('n', 'perm'),), ())))" in repr(t[2][0][2])
+            and "('+', (('c', -1), ('call', 'numpy.array', (('n', 'perm'),), " in repr(t[2][0][2])  # (with or without a dtype keyword)
     detp = "columns of the identity selected by perm - 1"
     if not okp:
         # other recognisable definitions: (a) a determinant whose column selection is not perm - 1 -> wrong base (violation);
@@ -192,7 +192,13 @@ def run(ctx):
     ctx.ob("R-ENUM", up, "the chosen value is written at the current position and the recursion moves to the next position", okplace and rec_ok,
            "result_list[elem_d] = value; recurse on elem_d - 1" if okplace and rec_ok else "the value is not placed at `elem_d` or the recursion does not descend by one position")
     ctx.ob("R-ENUM", up, "only values with remaining occurrences are placed", gd, "occurrences > 0" if gd else "guard missing or weakened" if gd is False else "guard not recognised", required=gd is not None)
+    from ..rules import r_index_array_dtype, r_recursion_empty_base
+    r_index_array_dtype(ctx, ps, "perm", rule="R-KIND")
+    _k = ("R-KIND", ps.short, "the index array made from the list `perm` has an integer dtype (an empty list included)")
+    if not any(o.key == _k for o in ctx.obs):
+        ctx.ob("R-KIND", ps, _k[2], True, "`perm` is never used as an index array (its entries are read one by one)")
     pm = m.func("perfect_matchings.perfect_matchings")
+    r_recursion_empty_base(ctx, pm)
     # the objects to be matched may be any distinct labels (the docstring allows a list or array of them): a result buffer with a fixed
     # integer dtype that receives them by item assignment truncates non-integer labels (vstack / hstack promote instead)
     from ..rules import r_dtype_default_buffer
